@@ -35,6 +35,7 @@ func runC09(r *engine.Run) {
 	r.Rule("AGREE-endian", "every fixed-width read and write of the weighted trie (hash pre-images, serialised weights, decoders) uses one byte order")
 	r.Rule("DOM-shortkey", "every shared-prefix node built by insert/delete gets a key provably non-empty at the site (the walk's key under len(key) == 0 false, X[:k] under k == 0 false, X[k:] under len(X) == k false, a made slice of length >= 1, a literal with elements)")
 	r.Rule("FRESH-resolved", "resolveHashNode returns exactly the node its own DeserializeNode call decoded and keeps no other reference to it: loaded nodes are mutated in place by the walks, so they are never shared through a cache")
+	r.Rule("AGREE-ref", "see C12: every reference node carries the hash and the weight of what it stands for")
 	r.NotDec = append(r.NotDec, "the numeric equalities themselves (total weight = sum of live weights, block ownership, root = independent computation)")
 	exhW(r, "EXH-W", []string{"insert", "delete", "getBlockProof", "markToCollect"})
 	depWeight(r)
@@ -55,6 +56,7 @@ func runC09(r *engine.Run) {
 	agreeEndian(r, "AGREE-endian")
 	domShortKey(r, "DOM-shortkey")
 	freshResolved(r, "FRESH-resolved")
+	refComplete(r, "AGREE-ref")
 	domNoChange(r, "AGREE-update")
 	if n := domSentinel(r, "DOM-sentinel", wf); n < 1 {
 		r.Anchor("DOM-sentinel", fmt.Errorf("unresolved anchor: no single-slot scan with sentinels found in the weighted trie (delete's reduction step is expected to be one)"))
